@@ -57,10 +57,7 @@ def run(c):
         key = "%s:%s" % (e.get("ct"), ",".join(why)[:70])
         seen[key] = seen.get(key, 0) + 1
         if seen[key] <= 2:
-            r2, _ = c.run_worker("p7sign", [s], parallel=1, env=env)
-            ev2 = [{"op": "reset"}] + [{k: v for k, v in x.items() if k not in ("sc", "ev")} for x in r2.get(s["sc"], []) if x.get("op") == "sign"]
-            if not c.validate_traces("Pkcs7SignTrace", "Pkcs7SignTrace.cfg", ev2):
-                raise vf.FrameworkError("rejection not reproduced")
+            c.reproduce_trace("p7sign", s["sc"], "Pkcs7SignTrace", "Pkcs7SignTrace.cfg", ("sc", "ev"), env=env, select=lambda x: x.get("op") == "sign", head=({"op": "reset"},))
         c.report(key, "SignedData produced for %s is not what an RFC 2315 producer emits / not accepted by independent implementations: %s" % (
             {k: s[k] for k in ("ct", "size", "key", "issuer", "serial")}, why), dict({"scenario": s, "event": e}, **c.rp("p7sign", s, validate=("Pkcs7SignTrace", "Pkcs7SignTrace.cfg"), strip=("sc", "ev"))))
     c.cov["evaluations"] = len(scen)
